@@ -51,12 +51,22 @@ type RecLocation struct {
 	locations.StorageLocation
 	mu        sync.Mutex
 	log       []LocOp
-	HoldWrite func(path string) // called before a write is performed (may block)
+	holdWrite func(path string) // called before a write is performed (may block)
+}
+
+// SetHoldWrite installs (or, with nil, removes) a callback that runs before every write and may block.
+func (l *RecLocation) SetHoldWrite(f func(path string)) {
+	l.mu.Lock()
+	l.holdWrite = f
+	l.mu.Unlock()
 }
 
 func (l *RecLocation) Write(fname string, r io.Reader) (string, error) {
-	if l.HoldWrite != nil {
-		l.HoldWrite(fname)
+	l.mu.Lock()
+	hold := l.holdWrite
+	l.mu.Unlock()
+	if hold != nil {
+		hold(fname)
 	}
 	uri, err := l.StorageLocation.Write(fname, r)
 	if err == nil {
@@ -144,6 +154,7 @@ type Worker struct {
 	cancel context.CancelFunc
 	done   chan error
 	Dead   bool
+	dead   atomic.Bool // same as Dead, readable without the cluster lock
 	Range  partitioning.KeyGroupRange
 	hasRng bool
 	reader *VReader // the reader of its current deployment
@@ -342,6 +353,7 @@ func (c *Cluster) AddWorker() *Worker {
 	w.H.TimerProg = c.TimerFn
 	w.H.Check = c.checks
 	w.H.OnCall = c.Latency
+	w.H.Muted = w.dead.Load
 	kh := &keyHandler{c: c, inner: w.H, w: w}
 	ja := jobAd{c: c, w: w}
 	opFactory := func(sender string, n *jobpb.NodeIdentity) proto.Operator { return &opAd{c: c, sender: sender, node: n} }
@@ -394,6 +406,7 @@ func (c *Cluster) Kill(w *Worker) {
 	}
 	w.killed = true
 	w.Dead = true
+	w.dead.Store(true)
 	c.mu.Unlock()
 	w.SR.Halt()
 	w.Op.Halt()
@@ -431,6 +444,7 @@ func (w *Worker) Exited() (bool, error) {
 func (c *Cluster) MarkDead(w *Worker) {
 	c.mu.Lock()
 	w.Dead = true
+	w.dead.Store(true)
 	c.mu.Unlock()
 }
 
@@ -457,6 +471,7 @@ func (c *Cluster) Shutdown(w *Worker) {
 	}
 	c.mu.Lock()
 	w.Dead = true
+	w.dead.Store(true)
 	c.mu.Unlock()
 }
 
